@@ -481,6 +481,75 @@ Definition strip_near_equal_paths_d (ps : list (list ptd)) (maxd : float) (close
 Definition strip_duplicates_paths (ps : list path) (closed : bool) : res (list path) :=
   map_res (fun p => strip_duplicates p closed) ps.
 
+(* ------------------------------------------------------------------ the PathD (Point<double>) instantiations *)
+(* operator== on Point<double> *)
+Definition ptd_eqb (a b : ptd) : bool := ((fst a =? fst b) && (snd a =? snd b))%float.
+
+(* PerpendicDistFromLineSqrd<double>: the differences are taken in binary64 *)
+Definition perp_d2_d (p l1 l2 : ptd) : float :=
+  let a := (fst p - fst l1)%float in
+  let b := (snd p - snd l1)%float in
+  let c := (fst l2 - fst l1)%float in
+  let d := (snd l2 - snd l1)%float in
+  if (c =? 0)%float && (d =? 0)%float then 0%float
+  else (fsqr (a * d - c * b) / (c * c + d * d))%float.
+
+Definition simplify_path_d (p : list ptd) (epsilon : float) (closed : bool) : res (list ptd) :=
+  simplify_gen ptd float perp_d2_d PrimFloat.ltb MAX_DBL 0%float p (simp_eps_sqr epsilon) closed.
+Definition rdp_path_flags_d (p : list ptd) (epsilon : float) : res (list bool) :=
+  if length p <? 5 then Ok (repeat true (length p))
+  else rdp_flags ptd ptd_eqb float perp_d2_d PrimFloat.leb 0%float p (fsqr epsilon).
+Definition rdp_path_d (p : list ptd) (epsilon : float) : res (list ptd) :=
+  rdp_gen ptd ptd_eqb float perp_d2_d PrimFloat.leb 0%float p (fsqr epsilon).
+
+(* StripDuplicates<T> for any point type: std::unique + closing pops *)
+Section StripDupGen.
+  Variable P : Type.
+  Variable peqb : P -> P -> bool.
+  Fixpoint unique_from_g (last : P) (l : list P) : list P :=
+    match l with
+    | [] => []
+    | x :: t => if peqb last x then unique_from_g last t else x :: unique_from_g x t
+    end.
+  Fixpoint pop_back_eq_g (fuel : nat) (l : list P) : res (list P) :=
+    match fuel with
+    | O => ErrFuel
+    | S f =>
+      if 1 <? length l then
+        a <- rd l (length l - 1) ;; b <- rd l 0 ;;
+        if peqb a b then pop_back_eq_g f (removelast l) else Ok l
+      else Ok l
+    end.
+  Definition strip_duplicates_g (p : list P) (closed : bool) : res (list P) :=
+    let u := match p with [] => [] | a :: t => a :: unique_from_g a t end in
+    if closed then pop_back_eq_g (S (length u)) u else Ok u.
+End StripDupGen.
+Definition strip_duplicates_d (p : list ptd) (closed : bool) : res (list ptd) := strip_duplicates_g ptd ptd_eqb p closed.
+
+(* TranslatePath<double> *)
+Definition translate_path_d (p : list ptd) (dx dy : float) : list ptd :=
+  map (fun q => (fst q + dx, snd q + dy)%float) p.
+
+(* TransformPath<int64_t,double> (Point64(PointD): std::round) and TransformPath<double,int64_t> *)
+Definition transform_path_di (p : list ptd) : path := map (fun q => (F2I64_round (fst q), F2I64_round (snd q))) p.
+Definition transform_path_id (p : path) : list ptd := map (fun q => (Z2Ff (px q), Z2Ff (py q))) p.
+
+(* TrimCollinear(const PathD&, int precision, bool): scale = std::pow(10, precision) (given),
+   ScalePath<int64_t,double> (round each product), TrimCollinear(Path64), ScalePath<double,int64_t> by 1/scale.
+   The range test of ScalePath (|coordinate * scale| beyond +-4.6e18 -> error) is outside the model. *)
+Definition trim_collinear_d (p : list ptd) (scale : float) (is_open : bool) : res (list ptd) :=
+  let p64 := map (fun q => (F2I64_round (fst q * scale), F2I64_round (snd q * scale))%float) p in
+  r <- trim_collinear p64 is_open ;;
+  let inv := (1 / scale)%float in
+  Ok (map (fun q => (Z2Ff (px q) * inv, Z2Ff (py q) * inv)%float) r).
+
+(* the Paths<T> overloads of the above *)
+Definition simplify_paths (ps : list path) (eps : float) (closed : bool) := map_res (fun p => simplify_path p eps closed) ps.
+Definition simplify_paths_d (ps : list (list ptd)) (eps : float) (closed : bool) := map_res (fun p => simplify_path_d p eps closed) ps.
+Definition rdp_paths (ps : list path) (eps : float) := map_res (fun p => rdp_path p eps) ps.
+Definition rdp_paths_d (ps : list (list ptd)) (eps : float) := map_res (fun p => rdp_path_d p eps) ps.
+Definition strip_duplicates_paths_d (ps : list (list ptd)) (closed : bool) := map_res (fun p => strip_duplicates_d p closed) ps.
+
 (* ------------------------------------------------------------------ GetBounds(Path64) / TranslatePath(Path64) *)
 Definition I64_MAX : Z := (2 ^ 63 - 1)%Z.
 Definition I64_LOWEST : Z := (- 2 ^ 63)%Z.
@@ -562,6 +631,15 @@ Definition ellipse_d (cx cy rx ry : float) (steps : Z) (si co : float) : list (f
 Definition ellipse_i (c : pt) (rx ry : float) (steps : Z) (si co : float) : path :=
   map (fun q => (F2I64_round (fst q), F2I64_round (snd q)))
       (ellipse_d (Z2Ff (px c)) (Z2Ff (py c)) rx ry steps si co).
+
+(* Ellipse(const Rect<T>&, steps) = Ellipse(rect.MidPoint(), Width * 0.5, Height * 0.5, steps);
+   Rect64::MidPoint divides the int64 sums by 2 (truncation), RectD::MidPoint in binary64 *)
+Definition ellipse_rect_i (l t r b : Z) (steps : Z) (si co : float) : path :=
+  ellipse_i (Z.quot (l + r) 2, Z.quot (t + b) 2) (Z2Ff (r - l) * 0.5)%float (Z2Ff (b - t) * 0.5)%float steps si co.
+Definition ellipse_rect_radii_i (l t r b : Z) : float * float := ((Z2Ff (r - l) * 0.5)%float, (Z2Ff (b - t) * 0.5)%float).
+Definition ellipse_rect_d (l t r b : float) (steps : Z) (si co : float) : list (float * float) :=
+  ellipse_d ((l + r) / 2)%float ((t + b) / 2)%float ((r - l) * 0.5)%float ((b - t) * 0.5)%float steps si co.
+Definition ellipse_rect_radii_d (l t r b : float) : float * float := (((r - l) * 0.5)%float, ((b - t) * 0.5)%float).
 
 (* ------------------------------------------------------------------ specification predicates (executable) *)
 (* used by the property theorems (proofs/PathUtils*.v) and, extracted, to judge implementation outputs *)
@@ -671,6 +749,11 @@ Section BoundSpec.
     end.
   Definition rdp_bad (p : list P) (fl : list bool) (epsSqr : D) : list nat := rdp_bad_aux 0 p fl None [] epsSqr.
 End BoundSpec.
+
+Definition simplify_fixed_d (out : list ptd) (epsilon : float) (closed : bool) : bool :=
+  simplify_fixed ptd float perp_d2_d PrimFloat.ltb out (fsqr epsilon) closed.
+Definition rdp_bad_d (p : list ptd) (fl : list bool) (epsilon : float) : list nat :=
+  rdp_bad ptd float perp_d2_d PrimFloat.leb p fl (fsqr epsilon).
 
 Definition rdp_bad_f (p : path) (fl : list bool) (epsilon : float) : list nat :=
   rdp_bad pt float perp_d2 PrimFloat.leb p fl (fsqr epsilon).
